@@ -9,6 +9,7 @@ Proof. destruct r; cbn; [eauto|discriminate]. Qed.
 
 (* destruct every leading `do x <- e; k = Ok y` of hypothesis H (the remainder keeps the name H) *)
 Ltac inv_bind H :=
+  cbv beta in H;
   repeat (match type of H with
           | bind ?r ?f = Ok ?b =>
               let a := fresh "a" in let E := fresh "E" in let H' := fresh "Hx" in
